@@ -35,7 +35,7 @@ Theorem C10_feasible_by_margin : forall tau tol delta n P c x, length x = n -> i
   ~ Correct tau tol delta n P c Infeasible.
 Proof. exact Correct_margin. Qed.
 Theorem C10_infeasible_only_if_thin : forall tau tol delta n P c, Correct tau tol delta n P c Infeasible -> thin n tau P.
-Proof. intros tau tol delta n P c H. exact H. Qed.
+Proof. exact Correct_infeasible_thin. Qed.
 (* status (zero objective) is never correctly "Unbounded" *)
 Theorem C10_status_not_unbounded : forall tau tol delta n P, ~ Correct tau tol delta n P (vzero n) Unbounded.
 Proof. exact Correct_status_not_unbounded. Qed.
@@ -50,7 +50,7 @@ Proof. exact Correct_min_exists. Qed.
 (* unbounded exactly when non-empty and unbounded below *)
 Theorem C10_unbounded_only_if : forall tau tol delta n P c, Correct tau tol delta n P c Unbounded ->
   (exists x, feas n P x) /\ unbounded_below n P c.
-Proof. intros tau tol delta n P c H. exact H. Qed.
+Proof. exact Correct_unbounded_inv. Qed.
 Theorem C10_unbounded_if : forall tau tol delta n P c st, unbounded_below n P c -> Correct tau tol delta n P c st ->
   st = Unbounded \/ (st = Infeasible /\ thin n tau P).
 Proof. exact Correct_unbounded. Qed.
